@@ -1502,7 +1502,7 @@ void readin (void)
 	}
 	if (real_reject)
 		visible_define ( "M4_MODE_REAL_REJECT");
-	if (ctrl.reject_really_used)
+	if (ctrl.reject_really_used || variable_trailing_context_rules)
 		visible_define ( "M4_MODE_FIND_ACTION_REJECT_REALLY_USED");
 	if (reject)
 		visible_define ( "M4_MODE_USES_REJECT");
